@@ -4,7 +4,7 @@ import JadeModel.Model.Cluster
 namespace Jade.Driver
 open Lean Jade.Cluster Jade.Gen.Cluster
 
-def sortNats (l : List Nat) : List Nat := l.mergeSort (fun a b => a ≤ b)
+private def sortNats (l : List Nat) : List Nat := l.mergeSort (fun a b => a ≤ b)
 
 def parsePairs (j : Json) (k : String) : R (List (Nat × List Nat)) := do
   (← arr j k).toList.mapM fun p => do pure ((← nat p "j"), (← natList p "by"))
